@@ -1,43 +1,52 @@
 package main
 
 import (
-	"go/types"
-
 	"golang.org/x/tools/go/ssa"
 )
 
-func ssaByte() types.Type { return types.Typ[types.Uint8] }
-func ssaErrT() types.Type { return types.NewPointer(types.NewStruct(nil, nil)) }
-
-// initGlobals runs the package initializer of ion, tolerating unsupported pieces.
+// initGlobals runs the package initialisers (dependencies first, each once) so that package-level tables are the
+// real ones. Initialiser statements the interpreter cannot execute leave their targets zero; a harness that then
+// depends on such a value ends in an `unsupported` path, never silently.
 func (e *Engine) initGlobals() {
 	e.inInit = true
 	defer func() { e.inInit = false }()
-	for _, dep := range []string{"errors", "io", "unicode/utf8", "math/bits", "strconv", "bytes", "bufio", "strings", "encoding/binary"} {
-		for _, p := range e.prog.AllPackages() {
-			if p.Pkg.Path() == dep {
-				if fi := p.Func("init"); fi != nil {
-					e.curInitPkg = p
-					e.runInit(fi)
-				}
-			}
+	done := map[*ssa.Package]bool{}
+	var visit func(p *ssa.Package)
+	visit = func(p *ssa.Package) {
+		if p == nil || done[p] {
+			return
+		}
+		done[p] = true
+		for _, imp := range p.Pkg.Imports() {
+			visit(e.prog.Package(imp))
+		}
+		if skipInit[p.Pkg.Path()] {
+			return
+		}
+		if fi := p.Func("init"); fi != nil {
+			e.curInitPkg = p
+			e.runInit(fi)
 		}
 	}
-	e.curInitPkg = e.pkg
-	init := e.pkg.Func("init")
-	// execute init but skip calls to other packages' init and anything unsupported
-	defer func() {
-		if r := recover(); r != nil {
-			// leave remaining globals zero
-			_ = r
-		}
-	}()
-	e.runInit(init)
+	visit(e.pkg)
+}
+
+// packages whose initialisers are irrelevant to the interpreted code (runtime internals, OS, reflection)
+var skipInit = map[string]bool{
+	"runtime": true, "os": true, "syscall": true, "reflect": true, "internal/reflectlite": true, "sync": true, "sync/atomic": true,
+	"internal/poll": true, "internal/cpu": true, "internal/godebug": true, "internal/testlog": true, "internal/syscall/unix": true,
+	"time": true, "unsafe": true, "internal/bytealg": true, "internal/abi": true, "runtime/debug": true, "fmt": true, "log": true,
+	"encoding/json": true, "flag": true, "math/rand": true, "internal/oserror": true, "io/fs": true, "path": true, "path/filepath": true,
+	"internal/fmtsort": true, "internal/itoa": true, "internal/race": true, "internal/goos": true, "internal/goarch": true,
+	"iter": true, "slices": true, "cmp": true, "maps": true, "internal/safefilepath": true, "internal/filepathlite": true,
+	"internal/syscall/execenv": true, "io/ioutil": true, "os/signal": true, "context": true, "testing": true,
+	"math/big": true, "encoding/hex": true, "hash": true, "hash/crc32": true, "compress/flate": true, "encoding/base32": true,
+	"text/tabwriter": true, "regexp": true, "regexp/syntax": true, "internal/unsafeheader": true, "unique": true, "internal/weak": true,
+	"internal/concurrent": true, "runtime/internal/sys": true, "internal/runtime/atomic": true,
 }
 
 func (e *Engine) runInit(fn *ssa.Function) {
-	// interpret init block by block, ignoring failures of individual instructions
-	f := &frame{fn: fn, env: map[ssa.Value]Value{}, loops: map[*ssa.BasicBlock]int{}}
+	f := &frame{fn: fn, env: map[ssa.Value]Value{}}
 	blk := fn.Blocks[0]
 	var prev *ssa.BasicBlock
 	for blk != nil {
@@ -45,8 +54,8 @@ func (e *Engine) runInit(fn *ssa.Function) {
 		for _, ins := range blk.Instrs {
 			switch in := ins.(type) {
 			case *ssa.If:
-				c := e.get(f, in.Cond).(*Term)
-				if c.ConstBool() {
+				c, ok := e.get(f, in.Cond).(*Term)
+				if ok && c.IsConst() && c.ConstBool() {
 					next = blk.Succs[0]
 				} else {
 					next = blk.Succs[1]
@@ -63,29 +72,26 @@ func (e *Engine) runInit(fn *ssa.Function) {
 				}
 			case *ssa.Call:
 				if cf, ok := in.Call.Value.(*ssa.Function); ok && cf.Name() == "init" && cf.Pkg != e.curInitPkg {
-					continue // other package's init
+					continue // other package's init: handled by visit order
 				}
-				func() {
-					defer func() {
-						if r := recover(); r != nil {
-							f.env[in] = &Opaque{"init failure"}
-						}
-					}()
-					e.exec(f, ins)
-				}()
+				e.tryExec(f, ins)
 			default:
-				func() {
-					defer func() {
-						if r := recover(); r != nil {
-							if v, ok := ins.(ssa.Value); ok {
-								f.env[v] = &Opaque{"init failure"}
-							}
-						}
-					}()
-					e.exec(f, ins)
-				}()
+				e.tryExec(f, ins)
 			}
 		}
 		prev, blk = blk, next
 	}
+}
+
+func (e *Engine) tryExec(f *frame, ins ssa.Instruction) {
+	defer func() {
+		if r := recover(); r != nil {
+			e.depth = 0
+			e.stack = e.stack[:0]
+			if v, ok := ins.(ssa.Value); ok {
+				f.env[v] = &Opaque{"init failure"}
+			}
+		}
+	}()
+	e.exec(f, ins)
 }
